@@ -21,6 +21,7 @@ package handler
 
 //@ spec mskey(ms: msgServer): iface = unbox(ms.keepers.Market, keeper.Keeper).skey
 //@ spec dskey(ms: msgServer): iface = unbox(ms.keepers.Deployment, dkeeper.Keeper).skey
+//@ spec storesWF(ms: msgServer, has: map[iface]map[str]bool, val: map[iface]map[str]str): bool = mktWF(has[mskey(ms)], val[mskey(ms)]) && depWF(has[dskey(ms)], val[dskey(ms)])
 //@ spec wired(ms: msgServer): bool = typeis(ms.keepers.Market, keeper.Keeper) && typeis(ms.keepers.Deployment, dkeeper.Keeper) && mskey(ms) != mktEscrowSKey() && dskey(ms) != mktEscrowSKey() && mskey(ms) != dskey(ms)
 
 // ---- the escrow module as seen from this handler (A-HOOKS, see x/market/keeper) ----
@@ -50,9 +51,12 @@ package handler
 // Only an active lease with its active bid and matched order is closed; all three are closed together and the
 // payment stream is asked to close; the order is re-created only for a group that is open when it is re-created.
 //@ func (msgServer).CloseLease
-//@   requires msg != nil && wired(ms)
+//@   requires msg != nil && wired(ms) && storesWF(ms, KVhas, KVval)
+//@   ensures [wf] storesWF(ms, KVhas, KVval)
+//@   oncall keeper.(IKeeper).OnOrderClosed 1 assert KVhas[mskey(ms)] == old(KVhas)[mskey(ms)] && (forall key: str :: KVval[mskey(ms)][key] != old(KVval)[mskey(ms)][key] ==>
+//@        key == leaseKeyOf(msg.LeaseID) || key == bidKeyOf(asBid(msg.LeaseID)) || key == orderKeyOf(asOrder(msg.LeaseID)))
 //@   modifies ghost KVhas, ghost KVval, ghost G, ghost Bank, ghost Mod, ghost It_all, ghost EvN, ghost EvLog, ghost PayCloseReq
-//@   uses keepsClosedTrans, keepsClosedRefl, keepsClosedHas, keepsClosedWF, keepsClosedOrder, keepsClosedBid, keepsClosedLease, keepsClosedCloseOrder, keepsClosedCloseBid, keepsClosedCloseLease, orderBidDisjoint, orderLeaseDisjoint, bidLeaseDisjoint
+//@   uses keepsClosedTrans, keepsClosedRefl, keepsClosedHas, keepsClosedWF, keepsClosedOrder, keepsClosedBid, keepsClosedLease, keepsClosedCloseOrder, keepsClosedCloseBid, keepsClosedCloseLease, mktWFGetOrder, mktWFGetBid, mktWFGetLease, depWFGetGroup, depKeepsWF, depKeepsRefl, depKeepsTrans, orderBidDisjoint, orderLeaseDisjoint, bidLeaseDisjoint
 //@   ensures [guards] result1 == nil ==>
 //@        old(KVhas)[mskey(ms)][orderKeyOf(asOrder(msg.LeaseID))] && ordOf(old(KVval)[mskey(ms)], asOrder(msg.LeaseID)).State == types.OrderActive
 //@        && old(KVhas)[mskey(ms)][bidKeyOf(asBid(msg.LeaseID))] && bidOf(old(KVval)[mskey(ms)], asBid(msg.LeaseID)).State == types.BidActive
@@ -77,9 +81,13 @@ package handler
 // An open bid is simply closed; a matched bid is closed together with its active lease and its order, the group
 // is paused and the payment stream is asked to close.  Nothing else is accepted.
 //@ func (msgServer).CloseBid
-//@   requires msg != nil && wired(ms)
+//@   requires msg != nil && wired(ms) && storesWF(ms, KVhas, KVval)
+//@   ensures [wf] storesWF(ms, KVhas, KVval)
+//@   oncall keeper.(IKeeper).OnBidClosed 1 assert KVhas[mskey(ms)] == old(KVhas)[mskey(ms)] && (forall key: str :: KVval[mskey(ms)][key] != old(KVval)[mskey(ms)][key] ==> key == bidKeyOf(msg.BidID))
+//@   oncall keeper.(IKeeper).OnOrderClosed 1 assert KVhas[mskey(ms)] == old(KVhas)[mskey(ms)] && (forall key: str :: KVval[mskey(ms)][key] != old(KVval)[mskey(ms)][key] ==>
+//@        key == leaseKeyOf(asLease(msg.BidID)) || key == bidKeyOf(msg.BidID) || key == orderKeyOf(bidOrder(msg.BidID)))
 //@   modifies ghost KVhas, ghost KVval, ghost G, ghost Bank, ghost Mod, ghost It_all, ghost EvN, ghost EvLog, ghost PayCloseReq
-//@   uses keepsClosedTrans, keepsClosedRefl, keepsClosedHas, keepsClosedWF, keepsClosedOrder, keepsClosedBid, keepsClosedLease, keepsClosedCloseOrder, keepsClosedCloseBid, keepsClosedCloseLease, orderBidDisjoint, orderLeaseDisjoint, bidLeaseDisjoint
+//@   uses keepsClosedTrans, keepsClosedRefl, keepsClosedHas, keepsClosedWF, keepsClosedOrder, keepsClosedBid, keepsClosedLease, keepsClosedCloseOrder, keepsClosedCloseBid, keepsClosedCloseLease, mktWFGetOrder, mktWFGetBid, mktWFGetLease, depWFGetGroup, depKeepsWF, depKeepsRefl, depKeepsTrans, orderBidDisjoint, orderLeaseDisjoint, bidLeaseDisjoint
 //@   ensures [guards] result1 == nil ==> old(KVhas)[mskey(ms)][bidKeyOf(msg.BidID)] && old(KVhas)[mskey(ms)][orderKeyOf(bidOrder(msg.BidID))]
 //@        && (bidOf(old(KVval)[mskey(ms)], msg.BidID).State == types.BidOpen
 //@            || (bidOf(old(KVval)[mskey(ms)], msg.BidID).State == types.BidActive && old(KVhas)[mskey(ms)][leaseKeyOf(asLease(msg.BidID))]
@@ -91,8 +99,7 @@ package handler
 //@   oncall keeper.(IKeeper).OnOrderClosed 1 assert
 //@        leaseOf(KVval[mskey(ms)], lease.LeaseID).State == types.LeaseClosed && bidOf(KVval[mskey(ms)], bid.BidID).State == types.BidClosed
 //@        && (order.State != types.OrderClosed ==> ordOf(KVval[mskey(ms)], order.OrderID).State == types.OrderClosed)
-//@        && (grpOf(old(KVval)[dskey(ms)], orderGroup(order.OrderID)).GroupID == orderGroup(order.OrderID) ==>
-//@               grpOf(KVval[dskey(ms)], orderGroup(order.OrderID)).State == dtypes.GroupPaused)
+//@        && grpOf(KVval[dskey(ms)], orderGroup(order.OrderID)).State == dtypes.GroupPaused
 //@ spec bidOrder(id: types.BidID): types.OrderID
 //@ axiom bidOrderDef: forall id: types.BidID :: bidOrder(id).Owner == id.Owner && bidOrder(id).DSeq == id.DSeq && bidOrder(id).GSeq == id.GSeq && bidOrder(id).OSeq == id.OSeq
 //@   trigger bidOrder(id)
@@ -110,9 +117,11 @@ package handler
 //@   ensures [other] !(bid.State == types.BidOpen && bid.BidID != old(msg.BidID)) ==> lostbids == old(lostbids)
 //@   ensures [kept] forall j: int :: 0 <= j && j < old(len(lostbids)) ==> lostbids[j] == old(lostbids[j])
 //@ func (msgServer).CreateLease
-//@   requires msg != nil && wired(ms)
+//@   requires msg != nil && wired(ms) && storesWF(ms, KVhas, KVval)
+//@   oncall keeper.(IKeeper).OnBidMatched 1 assert (forall key: str :: KVval[mskey(ms)][key] != old(KVval)[mskey(ms)][key] || KVhas[mskey(ms)][key] != old(KVhas)[mskey(ms)][key] ==>
+//@        key == leaseKeyOf(asLease(bid.BidID)) || key == bidKeyOf(msg.BidID) || key == orderKeyOf(bidOrder(msg.BidID)))
 //@   modifies ghost KVhas, ghost KVval, ghost G, ghost Bank, ghost Mod, ghost It_all, ghost EvN, ghost EvLog
-//@   uses orderBidDisjoint, orderLeaseDisjoint, bidLeaseDisjoint
+//@   uses mktWFGetOrder, mktWFGetBid, mktWFGetLease, depWFGetGroup, depKeepsWF, depKeepsRefl, depKeepsTrans, orderBidDisjoint, orderLeaseDisjoint, bidLeaseDisjoint
 //@   ensures [guards] result1 == nil ==>
 //@        old(KVhas)[mskey(ms)][bidKeyOf(msg.BidID)] && bidOf(old(KVval)[mskey(ms)], msg.BidID).State == types.BidOpen
 //@        && old(KVhas)[mskey(ms)][orderKeyOf(bidOrder(msg.BidID))] && ordOf(old(KVval)[mskey(ms)], bidOrder(msg.BidID)).State == types.OrderOpen
@@ -169,4 +178,5 @@ package handler
 
 //@ property C08 := (msgServer).CreateBid#*
 //@ property C04 := (msgServer).CreateBid#*, (msgServer).WithdrawLease#*
+//@ property C06 := (msgServer).CloseLease#*, (msgServer).CloseBid#*, (msgServer).CreateLease#*, (msgServer).CreateLease$1#*
 //@ property C04 := (msgServer).CloseLease#*, (msgServer).CloseBid#*, (msgServer).CreateLease#*, (msgServer).CreateLease$1#*
